@@ -22,6 +22,16 @@ NOT_APPLICABLE = {
 }
 
 REGISTRY = {
+    "C14": {
+        "modules": ["c14", "c18", "c01"],
+        "select": r"^c14_|^c18_ug_|^c18_from_bounds|^c01_calc_mean|^c01_mean_eloss",
+        "level_text": "Contracts on the real lookup code (extracted to C each run): UniformGrid::find returns a valid bin for EVERY in-range double incl. one ulp below the last point (the defect found and fixed here); XsCalculator: every table/grid index in range, find only called inside the grid, documented below/above-grid extrapolation, 1/E scaling exactly at indices >= prime_index; mean energy loss 0 <= loss <= E and == E for a range-limited step; MSC true->geom never lengthens and geom->true lies in [geom, true] for ANY values of the transcendental functions. log/exp/pow/interpolation are uninterpreted functions, so interpolation containment, continuity, monotonicity and range/inverse-range inversion are NOT decided.",
+        "level_note": "Trusted: CBMC/dfcc/SAT+cvc5; extraction rules; transcendental functions, FP division inside XsCalculator and the linear interpolator treated as uninterpreted functions (the units decide which operation is applied to which operands, not numeric accuracy); table calculators in calc_mean_energy_loss by assumed contracts; two IEEE multiplication lemmas assumed. Not decided: ValueGridBuilder (host std::vector code), RangeCalculator/InverseRangeCalculator/EnergyLossCalculator bodies (planned), all interpolation-accuracy clauses.",
+        "design_ref": "DESIGN.md 4 C14",
+        "trusted_base": [],
+        "assumptions": [],
+        "not_decided": ["values between neighbouring knots / continuity across knots (FP interpolation)", "range and inverse range are monotone mutual inverses", "mean loss non-decreasing in step length", "ValueGridBuilder construction (host)", "RangeCalculator, InverseRangeCalculator, EnergyLossCalculator, GenericCalculator bodies"],
+    },
     "C05": {
         "modules": ["c05"],
         "level_text": "Per-call contracts on the real step-limit machinery (extracted to C each run): SimTrackView::step_limit only shortens the step and replaces the action iff strictly shorter; add_time never decreases time; TimeUpdater, TrackUpdater (step counter +1 iff not errored, MFP reduced by step*xs exactly when the discrete action is not selected), PropagationApplier (0 < len' <= len, a shortened step carries a boundary/propagation/tracking-cut action, zero-length steps untouched, every in-body CELER_ASSERT holds) -- for all states, discharged by CBMC. Cross-step continuity and 'volume contains position' are whole-history statements and are not decided.",
